@@ -124,7 +124,9 @@ def run(case):
     if K.skip("C03-rdfxml-illformed-names", fmt in ("xml", "pretty-xml") and any(xml_name_hazard(t[1][1]) for t in triples), out):
         return out
     feats0 = case.get("feats", [])
-    empty_q = any(x[0] == "u" and re.search(r"[?;](#|\Z)", x[1]) for t in triples for x in t)
+    # (urljoin, which the RDF/XML parser resolves with, drops an empty query, empty parameters and empty path segments)
+    empty_q = any(x[0] == "u" and (re.search(r"[?;](#|\Z)", x[1]) or re.search(r"^[A-Za-z][A-Za-z0-9+.-]*://[^/?#]*/[^?#]*//", x[1]) or
+                                   re.search(r"^[A-Za-z][A-Za-z0-9+.-]*://[^/?#]*//", x[1])) for t in triples for x in t)
     if K.skip("C03-rdfxml-empty-query", fmt in ("xml", "pretty-xml") and bool(case.get("base")) and empty_q, out):
         return out
     if K.skip("C03-jsonld-base", fmt == "json-ld" and bool(case.get("base")), out):
